@@ -1058,8 +1058,16 @@ where
             HelpRequest::Command(command) => {
                 match C::command_help(&mut |_p: &mut Writer<'_, W, E>| -> (r: Result<(), E>) ensures r is Ok { Ok(()) }, command.clone(), &mut writer) {
                     Err(HelpError::UnknownCommand) => {
+//@ let ghost out_u = writer.out();
                         writer.write_str("error: ")?;
                         writer.write_str("unknown command")?;
+//@ proof {   // [C12]
+//@     // C12: asking about an unknown or hidden command prints `error: unknown command`
+//@     lemma_unknown_command_msg();
+//@     lemma_crlf_no_lf("error: ".spec_bytes());
+//@     lemma_crlf_no_lf("unknown command".spec_bytes());
+//@     assert(writer.out() =~= out_u + unknown_command_msg());
+//@ }
                     }
                     Err(HelpError::WriteError(err)) => return Err(err),
                     Ok(()) => {}
